@@ -238,6 +238,7 @@ static void stage_targets(Run &R) {
     }
 }
 
+#ifndef VF_FUZZ
 int main(int argc, char **argv) {
     int rc = std_main(argc, argv, "C15", {{"setup", stage_setup}, {"codes", stage_codes}, {"random", stage_random}, {"targets", stage_targets}},
         [](Run &R, const Case &c) -> std::optional<Failure> {
@@ -249,3 +250,11 @@ int main(int argc, char **argv) {
         [](Run &R) { K_ = new Core(&dflt_api); K k(K_->A); for (const char *n : CODES) E[n] = k(std::string("EEAV_") + n); E["MAX"] = k("EEAV_MAX"); return K_->init(R.a.datadir); }, [] { delete K_; });
     return rc;
 }
+#else
+VF_FUZZ_TARGET("C15", [](Run &R) { K_ = new Core(&dflt_api); K k(K_->A); for (const char *n : CODES) E[n] = k(std::string("EEAV_") + n); E["MAX"] = k("EEAV_MAX"); return K_->init(R.a.datadir); },
+    [](Run &R, const uint8_t *d, size_t n) -> std::optional<Failure> {
+        if (n < 2) return std::nullopt;
+        int mask = (d[n - 1] | (d[n - 2] << 8)) % 2048; if (d[n - 1] & 0x80) mask = K_->default_mask();
+        Bytes a = fuzz_bytes(d, n - 2); R.sample("fuzz", show(a.substr(0, 80)), 4);
+        return check_one(R, a, mask); })
+#endif
